@@ -255,6 +255,9 @@ func (w *iterWorld) Gen(seed uint64, tier string) *Plan {
 	if r.P(1, 4) {
 		cfg.Dom = r.Range(2, 4) // empty and single-element states come up often
 	}
+	if floatOK("C08", cfg.Kind) && r.P(1, 12) {
+		useFloat(r, &cfg)
+	}
 	p := &Plan{World: "iter", Cfg: cfg}
 	attach(p)
 	s := makeSubject(cfg, false)
